@@ -265,6 +265,53 @@ pub fn judge(prog: &Program, d: Dialect, mo: ModernOpts, c: &mut Choices, st: &m
                 st.label("accessor-shares-its-code-hash(skip)");
                 continue;
             }
+            if entry.is_none() {
+                // the same one-name-per-hash effect, recognised by behaviour instead of by the shape
+                // of the source: the modern compilers reduce a body whose value needs no argument
+                // (a let with unused bindings around a constant, a call of a constant inline) to
+                // (a (q . (q . C)) 1), the same code as every other function with that constant.
+                // Accepted only when some listed entry's code, occurring in the program, computes
+                // this function on each of three generated argument lists.
+                let (params, _) = user_fns[name];
+                let mut trials = vec![];
+                for _ in 0..3 {
+                    let args = gen_args_for(c, params);
+                    if let Outcome::Value(want) = Interp::new(prog, 100_000).run_function(name, &args) {
+                        trials.push((args, want));
+                    }
+                }
+                let shared = trials.len() == 3
+                    && syms.iter().any(|(k2, _)| {
+                        if !is_hash_key(k2) || !syms.contains_key(&format!("{k2}_arguments")) {
+                            return false;
+                        }
+                        let Some(code2) = hashes.get(k2) else {
+                            return false;
+                        };
+                        let left_env = syms.get(&format!("{k2}_left_env")).map(|s| s == "1").unwrap_or(false);
+                        trials.iter().all(|(args, want)| {
+                            let got = if left_env {
+                                let Some((_, envq)) = &env_parts else {
+                                    return false;
+                                };
+                                let Some(path) = path_to_function(envq.clone(), &hex::decode(k2).unwrap()) else {
+                                    return false;
+                                };
+                                let Ok(cp) = sut::from_rich(rewrite_in_program(path, envq.clone()), true) else {
+                                    return false;
+                                };
+                                sut::run_consensus(&cp, args, RUN_COST)
+                            } else {
+                                sut::run_consensus(code2, args, RUN_COST)
+                            };
+                            matches!(got, Ok(v) if v == *want)
+                        })
+                    });
+                if shared {
+                    st.label("function-shares-its-code-with-a-listed-one(skip)");
+                    continue;
+                }
+            }
             match entry {
                 None => return Err(Viol::new("reachable-function-has-no-entry", format!("an entry for {name}"), "none", case(json!({"function": name})))),
                 Some((k, _)) => {
